@@ -56,7 +56,9 @@ pub fn run(args: &[String]) {
         // probe case <replay.json> [sql...]: realise the table+layout of a query-property replay file
         let v: serde_json::Value = serde_json::from_str(&std::fs::read_to_string(&args[1]).unwrap()).unwrap();
         let t: crate::gen::LogicalTable = serde_json::from_value(v["case"]["table"].clone()).unwrap();
-        let layout: crate::gen::Layout = serde_json::from_value(v["case"]["layout"].clone()).unwrap();
+        // C02 cases carry two layouts: VERIF_PROBE_LAYOUT=b picks the second
+        let key = if !v["case"]["layout"].is_null() { "layout" } else if std::env::var("VERIF_PROBE_LAYOUT").as_deref() == Ok("b") { "layout_b" } else { "layout_a" };
+        let layout: crate::gen::Layout = serde_json::from_value(v["case"][key].clone()).unwrap();
         let (db, _d) = crate::qgen::realise(&t, &layout, "t").expect("realise");
         let mut sqls: Vec<String> = args[2..].to_vec();
         if sqls.is_empty() {
@@ -69,6 +71,18 @@ pub fn run(args: &[String]) {
         }
         for sql in sqls {
             println!("> {}", sql);
+            if std::env::var("VERIF_PROBE_EXPLAIN").is_ok() {
+                let raw = db.raw().clone();
+                let shows: Vec<usize> = std::env::var("VERIF_PROBE_SHOW").ok().map(|s| s.split(',').filter_map(|x| x.parse().ok()).collect()).unwrap_or_default();
+                match futures::executor::block_on(raw.run_query(&sql, true, true, shows)) {
+                    Ok(o) => {
+                        for (plan, n) in &o.query_plans {
+                            println!("--- plan x{}\n{}", n, plan);
+                        }
+                    }
+                    Err(e) => println!("  explain ERR {:?}", e),
+                }
+            }
             match db.query(&sql) {
                 Ok(Ok(o)) => println!("  {:?}", o),
                 Ok(Err(e)) => println!("  ERR {}", e.short()),
